@@ -125,6 +125,9 @@ def check(run: Run) -> None:
     from .c11 import check_write_reports
 
     check_write_reports(run, res, None, "R10.9")
+    from .c19 import check_strip_with_word
+
+    check_strip_with_word(run, "R10.10")  # an unknown schema name must stay unknown (UNVALIDATED), not collapse onto a real one
     run.assume("get_builtin_schema / load_schema_by_name are pure lookups (module state is read-only: C06 R06.3), so a repeated identical call agrees with the first")
 
     n_returns = 0
